@@ -2,7 +2,7 @@
 UNITS = {
     "health": dict(engine="verus", serves=["C20"]),
     "authz": dict(engine="verus", serves=["C02", "C11"]),
-    "handler": dict(engine="verus", serves=["C01", "C05", "C11", "C14", "C15"]),
+    "handler": dict(engine="verus", serves=["C01", "C03", "C05", "C10", "C11", "C14", "C15"]),
     "disk": dict(engine="verus", serves=["C19"]),
     "provision": dict(engine="verus", serves=["C16"]),
     "telemetry": dict(engine="verus", serves=["C18"]),
@@ -13,7 +13,7 @@ UNITS = {
     "actors": dict(engine="verus", serves=["C09", "C10", "C11"]),
     "sign": dict(engine="verus", serves=["C04", "C10", "C13"]),
     "keystore":  dict(engine="verus", serves=["C08"]),
-    "keykeeper": dict(engine="verus", serves=["C08", "C09"]),
+    "keykeeper": dict(engine="verus", serves=["C08", "C09", "C13"]),
     "ebpf_c":  dict(engine="cbmc", serves=["C06"], path="c/ebpf", kind="CBMC function contracts (goto-instrument --dfcc) on the unmodified linux-ebpf/ebpf_cgroup.c against a contract-level model of the BPF helpers; gcc replay of counterexamples"),
     "ebpf_rs": dict(engine="kani", serves=["C06"], path="kani/ebpf_rs", kind="Kani full-domain harnesses over the real ebpf_obj.rs (#[path]) and byte-for-byte extracted redirector items; layout table shared with the C side"),
     "authorizer": dict(engine="verus", serves=["C03", "C11", "C01"]),
@@ -36,11 +36,14 @@ PROPERTIES = {
 }
 
 PROPERTIES["C03"] = dict(
-    units=["authorizer"],
+    units=["authorizer", "handler"],
     technique="Verus contracts on the extracted real functions (trait-level spec function, table refinement, corollary lemmas)",
     level_text="Deductive proof (Verus/Z3), all inputs and configurations: every Authorizer impl, get_authorizer and authorize, extracted "
                "verbatim from proxy_authorizer.rs, are proved to compute the decision table written from the statement; the two sentences "
-               "of C03 are lemmas over that table for every rule view, mode and default access.",
+               "of C03 are lemmas over that table for every rule view, mode and default access. In unit handler the upstream write "
+               "primitive (TcpConnectionContext::send_request) and every function between it and the listener carry the precondition "
+               "root_only_respected (not a non-elevated WireServer/HostGAPlugin caller, not the proxy's own listener), proved at every call "
+               "of handle_new_http_request / handle_request_with_signature for every mode incl. audit and disabled.",
     level_note="Trusted: Verus/Z3/rustc; is_allowed's contract (decided in C02's unit); String==&str compares characters; &str "
                "extensionality; logging stubs. Not covered: the end-to-end relay (C01's contract).",
     design_ref="DESIGN.md section 3 C03",
@@ -174,7 +177,7 @@ PROPERTIES["C15"] = dict(
 )
 
 PROPERTIES["C13"] = dict(
-    units=["panics", "panic_bytes", "handler", "provision", "telemetry", "disk", "sign"],
+    units=["panics", "panic_bytes", "handler", "provision", "telemetry", "disk", "sign", "keykeeper"],
     technique="Verus' own safety obligations (str/String slicing on a char boundary, String::truncate, index, arithmetic overflow, unwrap/stub preconditions) on every function under contract; Kani for the byte-level UTF-16 slice",
     level_text='For the functions under contract (listed in the evidence; not the whole program): Verus discharges for all inputs that no slice/truncate is off a char boundary (event_logger::write_event, AgentStatusSharedState::get_module_status, ProxyServer::log_connection_summary after the fixes), no arithmetic overflow, no out-of-range index and no failing stub precondition in the request handler, provisioning, telemetry and logging units; Kani checks the UTF-16 frame conversion of read_response_body for every frame of up to 5 bytes (bounded companion, not counted as proved).',
     level_note="Partial claim: only the functions under contract; panics inside dependencies, the accept loop, main and Windows code are not covered. UTF-8 byte model of String (utf8_len/char_boundary, linked to vstd's by trusted axioms). 'Display does not panic' axioms per displayed type. Known C13-labelled preconditions in other units (headers_to_canonicalized_string value is visible ASCII; key keeper sleep arithmetic) are reported by those units.",
@@ -208,9 +211,10 @@ PROPERTIES["C04"] = dict(
     design_ref="DESIGN.md section 3 C04", assumptions=[],
 )
 PROPERTIES["C10"] = dict(
-    units=["sign", "actors"],
+    units=["sign", "actors", "handler"],
     technique="Verus contracts, rely/guarantee over the key-keeper actor: each wrapper call = one actor message with an existential postcondition; pair_ok precondition on build_request/get; E5 slice of the handler's key read; actor arms and wrapper bodies (unit actors)",
-    level_text="Deductive proof (Verus/Z3) for every await-point interleaving: build_request/get/attest_key emit `scheme <g> mac(k, ..)` only for a pair (g,k) that is one key record, and what is sent is that request; the obligation holds at all four reading sites (handle_request_with_signature, get_goalstate, get_shared_config, get_imds_instance_info) and at attest_key because one GetKey message returns the whole record; the GetKey arm replies a clone of the current record, SetKey stores its argument, each wrapper sends exactly its own message.",
+    level_text="Deductive proof (Verus/Z3) for every await-point interleaving: build_request/get/attest_key emit `scheme <g> mac(k, ..)` only for a pair (g,k) that is one key record, and what is sent is that request; the obligation holds at all four reading sites (handle_request_with_signature, get_goalstate, get_shared_config, get_imds_instance_info) and at attest_key because one GetKey message returns the whole record; the GetKey arm replies a clone of the current record, SetKey stores its argument, each wrapper sends exactly its own message. In unit handler the whole of handle_request_with_signature is under the precondition of the upstream write primitive "
+               "`unsigned as the client sent it, or signed with a key id and key that are one record` (key_id_names_signing_key): only get_current_key (one message) yields a record.",
     level_note="Trusted: Verus/Z3/rustc; tokio channel specs; the actor dispatch loop itself (only the arms are verified); attest_key's caller passes one record. Concurrency model: await-point interleavings of tokio tasks; OS-thread data races inside tokio are not covered.",
     design_ref="DESIGN.md section 3 C10", assumptions=[],
 )
